@@ -21,13 +21,44 @@ Proof. exact commit_atomic. Qed.
 Print Assumptions C08_commit_atomic.
 
 (* B. crash between ANY two commits of the scripted life-cycle (creation,
-   genesis, any list of block acceptances and pool updates), restart, receive
-   the remaining operations: same final state as the node that never crashed *)
-Theorem C08_crash_between_commits : forall g work k,
-  run (restart g (run empty_db (firstn k (script g work)))) (skipn k (script g work))
-  = run empty_db (script g work).
+   genesis, any list of block acceptances, pool updates - including pool
+   transactions that a later block makes invalid - and pool clean-ups), restart
+   (visor.New + Init, which cleans the pool), EVERYTHING delivered again from
+   the start: after the periodic pool clean-up (`settle`) the state equals that
+   of the node that never crashed. `wf_work 1 work`: the blocks of the work list
+   carry the sequence numbers 1, 2, ... (evaluated on the harness's work list). *)
+Theorem C08_crash_between_commits : forall g work k, wf_work 1 work = true ->
+  settle (run (restart g (run empty_db (firstn k (script g work)))) work)
+  = settle (run empty_db (script g work)).
 Proof. exact crash_between_commits. Qed.
 Print Assumptions C08_crash_between_commits.
+
+(* the same when only the operations not yet committed are delivered *)
+Theorem C08_crash_then_remaining : forall g work k,
+  settle (run (restart g (run empty_db (firstn k (script g work)))) (skipn k (script g work)))
+  = settle (run empty_db (script g work)).
+Proof. exact crash_then_remaining. Qed.
+Print Assumptions C08_crash_then_remaining.
+
+(* "the same state" has to be read after the pool clean-up: the restarted node
+   has already dropped a pool transaction that a block made invalid, the node
+   that never stopped drops it at its next periodic clean-up *)
+Theorem C08_crash_without_settle_refuted :
+  exists g work k, wf_work 1 work = true /\
+    run (restart g (run empty_db (firstn k (script g work)))) work <> run empty_db (script g work).
+Proof. exact crash_without_settle_refuted. Qed.
+Print Assumptions C08_crash_without_settle_refuted.
+
+(* non-vacuity: a life-cycle with a pool transaction killed by a block, crashed
+   right after that block *)
+Example C08_lifecycle_example :
+  let work := [Inject 7; ExecBlock 1 [5] [7]; Inject 9; Cleanup; ExecBlock 2 [9] []; Inject 11] in
+  wf_work 1 work = true /\
+  pool (run empty_db (firstn 4 (script 0 work))) = [7] /\
+  pool (restart 0 (run empty_db (firstn 4 (script 0 work)))) = [] /\
+  pool (settle (run empty_db (script 0 work))) = [11].
+Proof. repeat split; vm_compute; reflexivity. Qed.
+Print Assumptions C08_lifecycle_example.
 
 Theorem C08_restart_idempotent : forall g s, restart g (restart g s) = restart g s.
 Proof. exact restart_idempotent. Qed.
